@@ -431,7 +431,7 @@ class DefUse:
 
     def sym_place(self, p, depth=0):
         fn = self.fn
-        if depth > 40:
+        if depth > 120:
             return ('?',)
         fields = tuple(str(e.get('name', e.get('i'))) for e in p['pr'] if e['k'] == 'field')
         if any(e['k'] == 'index' for e in p['pr']):
@@ -445,6 +445,8 @@ class DefUse:
             if rv['k'] in ('ref', 'rawptr') and pr and pr[0]['k'] == 'deref':
                 q = {'l': rv['p']['l'], 'pr': list(rv['p']['pr']) + pr[1:]}
                 return self.sym_place(q, depth + 1)
+            if rv['k'] == 'agg' and rv.get('ak') == 'adt' and len(pr) >= 2 and pr[0]['k'] == 'downcast' and pr[0].get('variant') == rv.get('variant') and pr[1]['k'] == 'field':
+                pr = pr[1:]         # `(x as Some).0` with x = Some(v)
             if rv['k'] == 'agg' and rv.get('ak') in ('tuple', 'adt') and pr and pr[0]['k'] == 'field' and rv.get('ops') is not None:
                 idx = pr[0].get('i')
                 if idx is None:
@@ -456,6 +458,45 @@ class DefUse:
                     if q is None:
                         return self.sym(o, depth + 1) if len(pr) == 1 else ('?',)
                     return self.sym_place({'l': q['l'], 'pr': list(q['pr']) + pr[1:]}, depth + 1)
+        # `(x as Some).0` where x has several definitions (`None` on one path, `Some(v)` on another): the payload can only come from the definitions that build
+        # that variant; with exactly one of them, it is that operand
+        pr0 = list(p['pr'])
+        if len(pr0) >= 2 and pr0[0]['k'] == 'downcast' and len(ds) == 1 and len(whole) == 1:
+            # x itself is a plain copy of another local (the return slot of a folded helper): look at that one
+            rv1 = fn.blocks[whole[0][0]]['stmts'][whole[0][1]]['rv'] if whole[0][1] is not None else None
+            if rv1 is not None and rv1['k'] == 'use' and op_place(rv1['op']) is not None and not op_place(rv1['op'])['pr']:
+                return self.sym_place({'l': op_place(rv1['op'])['l'], 'pr': pr0}, depth + 1)
+        if len(pr0) >= 2 and pr0[0]['k'] == 'downcast' and pr0[1]['k'] == 'field' and len(whole) >= 1 and len(ds) == len(whole) and len(ds) > 1:
+            want = pr0[0].get('variant')
+            # continuation copies made by the helper folding carry the variant their path returns (`ret_kind`): only the copy of the wanted variant can feed the payload
+            tagged = [(bb, si) for (bb, si) in whole if si is not None and tuple(fn.blocks[bb]['stmts'][si].get('ret_kind') or ()) == ('v', want)]
+            if len(tagged) == 1 and all(si is not None and fn.blocks[bb]['stmts'][si].get('ret_kind') for (bb, si) in whole):
+                rv1 = fn.blocks[tagged[0][0]]['stmts'][tagged[0][1]]['rv']
+                if rv1['k'] == 'use' and op_place(rv1['op']) is not None and not op_place(rv1['op'])['pr']:
+                    return self.sym_place({'l': op_place(rv1['op'])['l'], 'pr': pr0}, depth + 1)
+            cands = []
+            for (bb, si) in whole:
+                if si is None:
+                    cands = None
+                    break
+                rv = fn.blocks[bb]['stmts'][si]['rv']
+                if rv['k'] == 'agg' and rv.get('ak') == 'adt':
+                    if rv.get('variant') == want:
+                        cands.append(rv)
+                else:
+                    cands = None
+                    break
+            if cands is not None and len(cands) == 1 and cands[0].get('ops') is not None:
+                idx = pr0[1].get('i')
+                if idx is None:
+                    names = cands[0].get('fields') or []
+                    idx = names.index(pr0[1].get('name')) if pr0[1].get('name') in names else None
+                if idx is not None and idx < len(cands[0]['ops']):
+                    o = cands[0]['ops'][idx]
+                    q = op_place(o)
+                    if q is None:
+                        return self.sym(o, depth + 1) if len(pr0) == 2 else ('?',)
+                    return self.sym_place({'l': q['l'], 'pr': list(q['pr']) + pr0[2:]}, depth + 1)
         base = self.sym_local(p['l'], depth + 1, want_fields=fields)
         if not fields:
             return base
@@ -468,7 +509,7 @@ class DefUse:
 
     def sym_local(self, l, depth=0, want_fields=()):
         fn = self.fn
-        if depth > 40:
+        if depth > 120:
             return ('?',)
         if 1 <= l <= fn.argc and not self.defs.get(l):
             return ('arg', l)
